@@ -2,11 +2,13 @@
 import math
 import tracegen
 import framework as fw
+import translate
 
 ID = "C07"
 COQ_IMPORTS = ["From HTA.model Require Import C07_Model."]
 SOURCES = {"hta/analyzers/communication_analysis.py": ["get_comm_comp_overlap"],
            "hta/utils/utils.py": ["merge_kernel_intervals", "get_kernel_type", "is_comm_kernel", "is_memory_kernel", "is_compute_kernel"]}
+TRANSLATE = [translate.gen_kernel_rules]
 N_CASES = {"quick": 400, "thorough": 6000}
 RULE = ("generated file sets, mostly profile comm_overlap (device intervals anywhere on a tiny time domain, half of them communication kernels: "
         "identical, nested, touching, zero-length, equal starts, several streams, names on regex boundaries), 1-3 ranks; non-trivial = some rank has a "
